@@ -84,7 +84,6 @@ type scope struct {
 	level       int                // frame level: number of frame indirections to access var during execution
 	sym         map[string]*symbol // map of symbols defined in this current scope
 	global      bool               // true if scope refers to global space (single frame for universe and package level scopes)
-	iota        int                // iota value in this scope
 }
 
 // push creates a new child scope and chain it to the current one.
